@@ -1,9 +1,9 @@
 #!/bin/sh
-# Builds the /verif machinery offline from files on disk only.
+# Builds the verification machinery offline from files on disk only.
 set -e
 export GOFLAGS=-mod=mod GOPROXY=off GOSUMDB=off GOTOOLCHAIN=local
 GO=/opt/veriftools/go1.26.8/bin/go
-cd /verif
+cd "$(dirname "$0")"
 mkdir -p bin evidence replays
 (cd rewrite && $GO build -o ../bin/simrewrite .)
 $GO build -o bin/verifctl ./cmd/verifctl
